@@ -114,7 +114,9 @@ class C06Bounded(Bounded):
                 {"title": "C12", "correlation": {"type": "temporal_ordered", "rules": ["n", "m", "p"], "timespan": "1d", "group-by": ["User"], "condition": "(n or  (m and not p))   and not (not n and m)"}},
                 {"title": "C13", "correlation": {"type": "temporal", "rules": ["n", "m", "p"], "timespan": "1d", "group-by": ["User"], "condition": "n or m and p"}},
                 {"title": "C9", "correlation": {"type": "value_count", "rules": ["p", "n"], "timespan": "30s", "group-by": ["User", "Host"], "condition": {"neq": 1, "field": ["x", "y"]}, "aliases": {"Host": {"p": "h1", "n": "h2"}}, "generate": True}}]
-        for kind, cls, doc in (("rule", SigmaRule, RULE_OK), ("correlation", SigmaCorrelationRule, CORR), ("correlation", SigmaCorrelationRule, CORR2), ("correlation", SigmaCorrelationRule, CORR3), ("filter", SigmaFilter, FILT),
+        odd_names = {"title": "ODD", "logsource": {"category": "c"}, "detection": {"rules": {"f": "a"}, "filter": {"g": "b"}, "correlation": {"h": "c"}, "fields": {"i": "d"}, "condition": "rules and not filter or 1 of corr* or fields"}}
+        odd_names2 = {"title": "ODD2", "logsource": {"category": "c"}, "detection": {"rules": {"f": "a"}, "timespan": {"g": "b"}, "condition": "1 of them"}}
+        for kind, cls, doc in (("rule", SigmaRule, RULE_OK), ("rule", SigmaRule, odd_names), ("rule", SigmaRule, odd_names2), ("correlation", SigmaCorrelationRule, CORR), ("correlation", SigmaCorrelationRule, CORR2), ("correlation", SigmaCorrelationRule, CORR3), ("filter", SigmaFilter, FILT),
                                *[("correlation", SigmaCorrelationRule, m) for m in more],
                                ("rule", SigmaRule, {**RULE_OK, "date": datetime.date(2024, 1, 2), "modified": "2024/01/03"}),
                                ("rule", SigmaRule, {**RULE_OK, "title": "DT", "date": datetime.datetime(2024, 1, 2, 10, 30), "modified": datetime.datetime(2024, 1, 3, 1, 2, 3, tzinfo=datetime.timezone(datetime.timedelta(hours=2)))}),
@@ -140,6 +142,15 @@ class C06Bounded(Bounded):
                     continue
                 if qs[0] != qs[1] or qs[0] != qs[2]:
                     fail("document-queries:" + str(doc.get("title")), f"{kind} document {doc.get('title')} converts to {qs[0]}, after to_dict() and reloading to {qs[1]}, after YAML to {qs[2]}", [kind, doc.get("title")])
+            if doc.get("title") in ("ODD", "ODD2"):       # detections whose names are keywords of other document kinds are detections like any other
+                want_q = {"ODD": ['f="a" and not g="b" or h="c" or i="d"'], "ODD2": ['f="a" or g="b"']}[doc["title"]]
+                try:
+                    from sigma.backends.test import TextQueryTestBackend as _TB
+                    got_q = [[str(q) for q in _TB().convert_rule(SigmaRule.from_dict(copy.deepcopy(o)))] for o in (doc, d1, norm(d3))]
+                except Exception as e:
+                    got_q = [f"{type(e).__name__}: {e}"]
+                if any(g != want_q for g in got_q):
+                    fail("document-queries:" + doc["title"], f"rule document {doc['title']} with detections named {sorted(k for k in doc['detection'] if k != 'condition')} converts (original / reloaded / YAML) to {got_q}, expected {want_q} each", ["rule", doc["title"]])
             if norm(d1) != norm(d2) or norm(d1) != norm(d3):
                 diff = [k for k in set(norm(d1)) | set(norm(d2)) if norm(d1).get(k) != norm(d2).get(k) or norm(d1).get(k) != norm(d3).get(k)]
                 fail("document", f"{kind} document {doc.get('title')}: dict form differs after reload in {diff}: {[(norm(d1).get(k), norm(d2).get(k), norm(d3).get(k)) for k in diff][:2]}", [kind])
@@ -200,6 +211,8 @@ class C06Bounded(Bounded):
             try:
                 p = ProcessingPipeline.from_dict({"vars": {"a": ["v1", "v2"]}, "transformations": [copy.deepcopy(t)]})
                 r = SigmaRule.from_dict(copy.deepcopy(doc))
+                if (ti + di) % 2:
+                    r.to_dict()         # history: the rule was written out once BEFORE it is transformed (the second writing must describe the rule as it is then)
                 p.apply(r)
                 q0 = TextQueryTestBackend().convert_rule(r)
             except SigmaError:
